@@ -1388,3 +1388,430 @@ def gen_seg_pipeline(rng, max_reqs=4):
     if rng.random() < 0.1:
         reqs[-1].close = True
     return reqs
+
+
+# ----------------------------------------------------------------------------
+# CONFIGURATION KNOBS, FAILING APPLICATIONS and the INACTIVITY REAPER (added for the fourth wave of seeded
+# changes: C04-w4m1 lets Task.service swallow an application OSError after the head of a Content-Length
+# response without marking the connection for closing when log_socket_errors is off, so the next pipelined
+# response follows a body shorter than announced; C04-w4m2 lets BaseWSGIServer.maintenance reap a channel
+# that has a request in service).
+#
+# A FaultScenario is a pipeline of FReq requests whose application may raise (OSError subclasses and other
+# exceptions) before start_response, after start_response before any output, after the head, in mid-body or
+# after the last chunk, from its iterator or through the write() callable, with Content-Length / chunked /
+# close-delimited (HTTP/1.0) responses, crossed with log_socket_errors, expose_tracebacks, lookahead and the
+# number of workers.  A request may also be SLOW: while it is in service the fake clock advances past
+# channel_timeout and the poll loop wakes up (a select timeout) with the REAL BaseWSGIServer.maintenance run
+# from a listener object in the socket map on every poll turn, as the real listening socket does.
+#
+# The oracle is the CLIENT-SIDE READING of the wire (client_parse: status line, then Content-Length / chunked /
+# EOF framing, as a client would) against the lone runs (each request alone on a fresh connection under the same
+# adjustments): every response the client can delimit must be, byte for byte, the lone response of the next
+# request in order; a response cut short must be the last thing on the wire and the connection must be closed;
+# a response that is cut short or EOF-delimited in its lone run must close the connection there too; after a
+# response whose lone run closed the connection nothing follows and no later request is executed; with no
+# failing request, a reading client and no socket fault every request is executed once, answered completely,
+# and the connection stays open.  Monitor only: Model/ChanPipe.v has no application failures, no adjustments
+# besides lookahead / send_bytes, and no maintenance (ASSUMPTIONS of checks/C04.py).
+
+FAULT_EXC = {"OSError": OSError, "ConnectionResetError": ConnectionResetError, "FileNotFoundError": FileNotFoundError,
+             "TimeoutError": TimeoutError, "BrokenPipeError": BrokenPipeError, "ValueError": ValueError, "KeyError": KeyError,
+             "RuntimeError": RuntimeError}
+LISTEN_FD = 3
+
+
+class FReq:
+    """resp: "cl" | "chunked" (HTTP/1.1, no Content-Length, several chunks) | "eof" (HTTP/1.0 request, no
+    Content-Length: close-delimited); fault: None or [at, exception name, via] with at = "before-start" |
+    "after-start" | k (raise instead of producing chunk k; k == len(chunks): after the last one) and
+    via = "iter" | "write"; slow: None or [ticks, seconds per tick]."""
+    expect = False
+    body = b""
+
+    def __init__(self, path, resp="cl", chunks=None, fault=None, slow=None, close=False):
+        self.path, self.resp, self.fault, self.slow, self.close = path, resp, fault, slow, close
+        self.chunks = [path.encode() * 4, path.encode().upper() * 3] if chunks is None else list(chunks)
+
+    def bytes(self):
+        h = "GET %s HTTP/%s\r\nHost: x\r\n" % (self.path, "1.0" if self.resp == "eof" else "1.1")
+        if self.close:
+            h += "Connection: close\r\n"
+        return (h + "\r\n").encode()
+
+    head = bytes
+
+    def key(self):
+        return ("fault", self.path, self.resp, tuple(self.chunks), json_dumps(self.fault), json_dumps(self.slow), self.close)
+
+    def to_json(self):
+        return {"path": self.path, "resp": self.resp, "chunks": [c.hex() for c in self.chunks], "fault": self.fault, "slow": self.slow,
+                "close": self.close}
+
+    @staticmethod
+    def from_json(d):
+        return FReq(d["path"], d["resp"], [bytes.fromhex(c) for c in d["chunks"]], d["fault"], d["slow"], d["close"])
+
+
+def json_dumps(x):
+    import json
+    return json.dumps(x, sort_keys=True)
+
+
+class FaultScenario(Scenario):
+    def __init__(self, reqs, cuts=(), send_plan=(), lookahead=0, n_workers=1, send_bytes=1, sndbuf=1 << 16, eof=False,
+                 max_steps=40000, log_socket_errors=True, expose_tracebacks=False, maint=False, channel_timeout=120, granularity="locks"):
+        Scenario.__init__(self, reqs, cuts, send_plan, lookahead, n_workers, send_bytes, sndbuf, eof, max_steps)
+        self.log_socket_errors, self.expose_tracebacks = log_socket_errors, expose_tracebacks
+        self.maint, self.channel_timeout, self.granularity = maint, channel_timeout, granularity
+
+    def app(self):
+        return None
+
+    def cfg(self):
+        return {"log_socket_errors": self.log_socket_errors, "expose_tracebacks": self.expose_tracebacks, "maint": self.maint,
+                "channel_timeout": self.channel_timeout, "granularity": self.granularity}
+
+    def to_json(self):
+        d = Scenario.to_json(self)
+        d["fault_cfg"] = self.cfg()
+        return d
+
+    @staticmethod
+    def from_json(d):
+        c = d["fault_cfg"]
+        return FaultScenario([FReq.from_json(r) for r in d["reqs"]], d["cuts"], d["send_plan"], d["lookahead"], d["n_workers"],
+                             d["send_bytes"], d["sndbuf"], d["eof"], max(40000, d.get("max_steps", 40000)), c["log_socket_errors"],
+                             c["expose_tracebacks"], c["maint"], c["channel_timeout"], c.get("granularity", "locks"))
+
+    def healthy(self):
+        return (not self.eof and not any(r.fault or r.close or r.resp == "eof" for r in self.reqs)
+                and not any(isinstance(p, (list, tuple)) for p in self.send_plan))
+
+
+class _ReaperListener:
+    """Stands in for the listening BaseWSGIServer in the socket map: readable() runs the REAL
+    BaseWSGIServer.maintenance over the world's active_channels with the fake clock's time, on every poll turn."""
+    accepting = True
+    connected = False
+
+    def __init__(self, world):
+        self.w = world
+        self.runs = 0
+
+    def readable(self):
+        from waitress.server import BaseWSGIServer
+        w = self.w
+        if w.tracing:
+            self.runs += 1
+            before = [object.__getattribute__(c, "will_close") for c in w.server.active_channels.values()]
+            BaseWSGIServer.maintenance(w.server, w.ftime.time())
+            after = [object.__getattribute__(c, "will_close") for c in w.server.active_channels.values()]
+            if before != after:
+                w.sched.note("reaped", w.ftime.time())
+        return False
+
+    def writable(self):
+        return False
+
+    def handle_read_event(self):  # pragma: no cover
+        pass
+
+    handle_write_event = handle_expt_event = handle_read_event
+
+    def handle_error(self):  # pragma: no cover
+        pass
+
+    def handle_close(self):  # pragma: no cover
+        pass
+
+
+class FaultWorld(PipeWorld):
+    def __init__(self, scn, schedule=(), policy=None):
+        PipeWorld.__init__(self, scn, schedule=schedule, policy=FairPolicy(policy), granularity=scn.granularity, snapshots=True)
+        self.adj_kw.update({"log_socket_errors": scn.log_socket_errors, "expose_tracebacks": scn.expose_tracebacks,
+                            "channel_timeout": scn.channel_timeout})
+        self.stall = None
+        self.sched.policy.world = self
+        self.calls = []
+        self.raised = []
+        self.ticks = 0
+        self.listener = _ReaperListener(self) if scn.maint else None
+        table = {r.path: r for r in scn.reqs}
+        world = self
+        from harness.sched import Op
+
+        def fail(r):
+            world.raised.append([r.path, r.fault[1]])
+            world.sched.note("app_raise", [r.path, r.fault[0], r.fault[1]])
+            raise FAULT_EXC[r.fault[1]]("injected by the application for %s" % r.path)
+
+        def app(environ, start_response):
+            r = table[environ["PATH_INFO"]]
+            world.calls.append(r.path)
+            if r.slow:
+                # a slow application: time passes, the poll loop's select() times out and the loop takes a turn
+                for _ in range(r.slow[0]):
+                    world.sched.yield_(Op("clock:tick", r.slow[1]))
+                    world.sched.clock += r.slow[1]
+                    world.ticks += 1
+                    world.trigger.pulled = True
+                    world.sched.yield_(Op("app:slow", r.path, enabled=lambda: not world.trigger.pulled))
+            at, via = (r.fault[0], r.fault[2]) if r.fault else (None, "iter")
+            if at == "before-start":
+                fail(r)
+            headers = [("Content-Type", "text/plain")]
+            if r.resp == "cl":
+                headers.append(("Content-Length", str(sum(len(c) for c in r.chunks))))
+            write = start_response("200 OK", headers)
+            if at == "after-start":
+                fail(r)
+            if via == "write":
+                for i, c in enumerate(r.chunks):
+                    if at == i:
+                        fail(r)
+                    write(c)
+                if at == len(r.chunks):
+                    fail(r)
+                return []
+
+            def gen():
+                for i, c in enumerate(r.chunks):
+                    if at == i:
+                        fail(r)
+                    yield c
+                if at == len(r.chunks):
+                    fail(r)
+            return gen()
+        self.app_fn = app
+
+    def _io_main(self):
+        if self.listener is not None:
+            self.map[LISTEN_FD] = self.listener
+        return PipeWorld._io_main(self)
+
+
+def client_parse(wire):
+    """Read the wire as an HTTP client would.  -> list of {"raw", "complete", "framing", "status"}; the last
+    element may be incomplete; framing "eof" consumes everything to the end."""
+    out = []
+    pos = 0
+    while pos < len(wire):
+        end = wire.find(b"\r\n\r\n", pos)
+        if end < 0:
+            out.append({"raw": wire[pos:], "complete": False, "framing": "head", "status": None})
+            break
+        head = wire[pos:end + 4]
+        lines = head[:-4].split(b"\r\n")
+        status = lines[0]
+        hd = {}
+        for ln in lines[1:]:
+            k, _, v = ln.partition(b":")
+            hd[k.strip().lower()] = v.strip()
+        body_start = end + 4
+        if not status.startswith(b"HTTP/1."):
+            out.append({"raw": wire[pos:], "complete": False, "framing": "garbage", "status": status[:40]})
+            break
+        if b"chunked" in hd.get(b"transfer-encoding", b"").lower():
+            p = body_start
+            ok = False
+            while True:
+                le = wire.find(b"\r\n", p)
+                if le < 0:
+                    break
+                try:
+                    n = int(wire[p:le].split(b";")[0], 16)
+                except ValueError:
+                    break
+                if n == 0:
+                    te = wire.find(b"\r\n", le + 2)          # no trailers are ever sent: the final CRLF
+                    if te == le + 2:
+                        p = te + 2
+                        ok = True
+                    break
+                if le + 2 + n + 2 > len(wire) or wire[le + 2 + n:le + 2 + n + 2] != b"\r\n":
+                    break
+                p = le + 2 + n + 2
+            if ok:
+                out.append({"raw": wire[pos:p], "complete": True, "framing": "chunked", "status": status})
+                pos = p
+                continue
+            out.append({"raw": wire[pos:], "complete": False, "framing": "chunked", "status": status})
+            break
+        if b"content-length" in hd:
+            n = int(hd[b"content-length"])
+            if body_start + n <= len(wire):
+                out.append({"raw": wire[pos:body_start + n], "complete": True, "framing": "cl", "status": status})
+                pos = body_start + n
+                continue
+            out.append({"raw": wire[pos:], "complete": False, "framing": "cl", "status": status})
+            break
+        out.append({"raw": wire[pos:], "complete": False, "framing": "eof", "status": status})
+        break
+    return out
+
+
+_LONE_FAULT = {}
+
+
+def _nodate(b):
+    """The Date header follows the (fake) clock, which a slow request advances: not part of the comparison."""
+    import re
+    return re.sub(rb"\r\nDate: [^\r]*\r\n", b"\r\nDate: -\r\n", b)
+
+
+def fault_lone(req, scn):
+    """The lone run of one request under the scenario's adjustments (no maintenance, default schedule, whole
+    delivery).  -> {"wire", "closed", "parsed", "calls"}"""
+    k = (req.key(), scn.log_socket_errors, scn.expose_tracebacks)
+    if k not in _LONE_FAULT:
+        r1 = FReq.from_json(dict(req.to_json(), slow=None))
+        w = FaultWorld(FaultScenario([r1], log_socket_errors=scn.log_socket_errors, expose_tracebacks=scn.expose_tracebacks))
+        w.run()
+        fin = w.final
+        _LONE_FAULT[k] = {"wire": w.wire, "closed": bool(w.sock.closed or not fin["connected"] or not fin["in_map"]),
+                          "parsed": client_parse(w.wire), "calls": list(w.calls), "verdict": w.verdict}
+    return _LONE_FAULT[k]
+
+
+def fault_monitor(world):
+    """-> list of (key, text).  See the section comment: the client-side reading of the wire against the lone runs."""
+    scn = world.scn
+    bad = []
+    lones = [fault_lone(r, scn) for r in scn.reqs]
+    paths = [r.path for r in scn.reqs]
+    # the lone runs themselves: a response the client cannot delimit, or that is cut short, must end its connection
+    for r, L in zip(scn.reqs, lones):
+        p = L["parsed"]
+        if len(p) != 1 and L["wire"]:
+            bad.append(("lone-shape", "lone run of %s: the client reads %d responses: %r" % (r.path, len(p), L["wire"][:80])))
+        elif p and not p[0]["complete"] and not L["closed"]:
+            bad.append(("short-response-kept-open", "lone run of %s (fault %r, log_socket_errors=%s): the response is %s (%d bytes on the wire, "
+                        "framing %s) and the connection is NOT closed: whatever is sent next on this connection is read by the client as "
+                        "the rest of this response" % (r.path, r.fault, scn.log_socket_errors,
+                                                       "close-delimited" if p[0]["framing"] == "eof" else "cut short", len(L["wire"]), p[0]["framing"])))
+        _ALONE[r.key()] = L["wire"]
+    quiet = world.verdict in ("blocked", "finished") and not world.sched.overrun
+    fin = world.final
+    closed = bool(world.sock.closed or not fin["connected"] or not fin["in_map"])
+    parsed = client_parse(world.wire)
+    ends_at = None             # index of the response after which the connection must be closed
+    for k, pr in enumerate(parsed):
+        if k >= len(lones):
+            bad.append(("extra-response", "the client reads %d responses for %d requests; extra: %r" % (len(parsed), len(lones), pr["raw"][:60])))
+            break
+        L = lones[k]
+        if pr["complete"]:
+            if _nodate(pr["raw"]) != _nodate(L["wire"]):
+                what = "bytes of a later response lie inside its announced length" if (
+                    L["wire"] and pr["raw"].startswith(L["wire"]) and len(pr["raw"]) > len(L["wire"])) else "differs"
+                bad.append(("response-mismatch", "response %d (%s) as the client delimits it (%s framing, %d bytes) is not the lone response of "
+                            "that request (%d bytes): %s; client reads ...%r, lone response ends ...%r"
+                            % (k, paths[k], pr["framing"], len(pr["raw"]), len(L["wire"]), what, pr["raw"][-50:], L["wire"][-50:])))
+                break
+        else:
+            if k != len(parsed) - 1:     # cannot happen by construction of client_parse; kept as a guard
+                bad.append(("short-not-last", "response %d cut short but not last" % k))
+            if quiet:
+                if _nodate(pr["raw"]) != _nodate(L["wire"]):
+                    bad.append(("short-mismatch", "response %d (%s) is cut short / undelimited on the wire (%d bytes, framing %s) and is not the "
+                                "lone response of that request (%d bytes)" % (k, paths[k], len(pr["raw"]), pr["framing"], len(L["wire"]))))
+                elif not closed and world.sock.client_reading and not world.sock.rx:
+                    bad.append(("short-kept-open", "response %d (%s) is cut short / close-delimited and the connection is still open at quiescence" % (k, paths[k])))
+            break
+        if L["closed"]:
+            ends_at = k
+            if k != len(parsed) - 1:
+                bad.append(("after-close", "response %d (%s) closes the connection in its lone run, yet %d more bytes follow it on the wire"
+                            % (k, paths[k], sum(len(x["raw"]) for x in parsed[k + 1:]))))
+            break
+    # what was executed
+    first_closing = next((i for i, L in enumerate(lones) if L["closed"]), None)
+    allowed = paths if first_closing is None else paths[:first_closing + 1]
+    if world.calls != allowed[:len(world.calls)]:
+        bad.append(("calls", "application calls %r are not a prefix of %r (the pipeline up to the first request whose lone run closes the connection)"
+                    % (world.calls, allowed)))
+    if quiet and scn.healthy() and world.sock.client_reading and not world.sock.client_gone and first_closing is None:
+        done = sum(1 for x in parsed if x["complete"])
+        if world.calls != paths or done != len(paths) or closed:
+            bad.append(("healthy-lost", "healthy client (reading, no socket fault, no failing request, no Connection: close), quiescent: executed %r of %r, "
+                        "%d of %d responses complete on the wire, connection %s (will_close=%s, maintenance ran %d times, clock advanced by %ss)"
+                        % (world.calls, paths, done, len(paths), "CLOSED" if closed else "open", fin["will_close"],
+                           world.listener.runs if world.listener else 0, world.sched.clock - 1000.0)))
+    # never mixed / one queue entry (the schedule-dependent clauses), from the common monitor
+    for key, text in monitor(world):
+        if key in ("mixed", "entry", "once", "once-start"):
+            bad.append((key, text))
+    sv = stall_verdict(world)
+    if sv is not None and sv[0] == "stalled":
+        bad.append(sv)
+    return bad
+
+
+def fault_directed():
+    out = []
+    ok = lambda p, **kw: FReq(p, **kw)
+    # the class of C04-w4m1: OSError after the head of a Content-Length response, socket errors not logged
+    for lse in (True, False):
+        for exc in ("OSError", "ConnectionResetError", "ValueError"):
+            for via in ("iter", "write"):
+                out.append(("cl-fault-mid-%s-%s-lse%d" % (exc, via, lse), FaultScenario(
+                    [FReq("/a", fault=[1, exc, via]), ok("/b"), ok("/c")], log_socket_errors=lse, lookahead=1, n_workers=2)))
+    for at in ("before-start", "after-start", 0, 1, 2):
+        for lse, exp in ((True, False), (False, True), (False, False)):
+            out.append(("fault-%s-lse%d-exp%d" % (at, lse, exp), FaultScenario(
+                [ok("/a"), FReq("/b", fault=[at, "FileNotFoundError", "iter"]), ok("/c")], log_socket_errors=lse, expose_tracebacks=exp,
+                lookahead=(0, 1, 5)[len(out) % 3])))
+    for resp in ("chunked", "eof"):
+        for at in ("after-start", 1, 2):
+            out.append(("%s-fault-%s" % (resp, at), FaultScenario(
+                [ok("/a"), FReq("/b", resp=resp, fault=[at, "TimeoutError", "iter"]), ok("/c")], log_socket_errors=False, lookahead=1)))
+        out.append(("%s-no-fault" % resp, FaultScenario([ok("/a"), FReq("/b", resp=resp), ok("/c"), ok("/d")], lookahead=5, n_workers=2)))
+    out.append(("no-fault-lse0", FaultScenario([ok("/a"), ok("/b"), ok("/c"), ok("/d")], log_socket_errors=False, lookahead=5, n_workers=2)))
+    out.append(("fault-last", FaultScenario([ok("/a"), FReq("/b", fault=[1, "BrokenPipeError", "write"])], log_socket_errors=False)))
+    out.append(("fault-partial-sends", FaultScenario([FReq("/a", fault=[1, "OSError", "iter"]), ok("/b")], log_socket_errors=False,
+                                                     send_plan=[9, 0, 30, 0], sndbuf=64, lookahead=1)))
+    return out
+
+
+def maint_directed():
+    """A slow request in service past channel_timeout with the real maintenance() running on every poll turn."""
+    out = []
+    ok = lambda p, **kw: FReq(p, **kw)
+    for la in (0, 1, 5):
+        for nw in (1, 2):
+            out.append(("slow-middle-la%d-w%d" % (la, nw), FaultScenario(
+                [ok("/one"), FReq("/slow", slow=[3, 50.0]), ok("/three")], lookahead=la, n_workers=nw, maint=True, channel_timeout=120)))
+    out.append(("slow-first", FaultScenario([FReq("/slow", slow=[2, 200.0]), ok("/two"), ok("/three"), ok("/four")], lookahead=1, maint=True, channel_timeout=120)))
+    out.append(("slow-chunked", FaultScenario([ok("/one"), FReq("/slow", resp="chunked", slow=[4, 40.0]), ok("/three")], lookahead=5, n_workers=2,
+                                              maint=True, channel_timeout=100)))
+    out.append(("slow-short-timeout", FaultScenario([ok("/one"), FReq("/slow", slow=[1, 2.0]), ok("/three")], lookahead=1, maint=True, channel_timeout=1)))
+    out.append(("two-slow", FaultScenario([FReq("/s1", slow=[2, 90.0]), FReq("/s2", slow=[2, 90.0]), ok("/three")], lookahead=5, n_workers=2,
+                                          maint=True, channel_timeout=120)))
+    out.append(("slow-not-overdue", FaultScenario([ok("/one"), FReq("/slow", slow=[2, 10.0]), ok("/three")], lookahead=1, maint=True, channel_timeout=120)))
+    return out
+
+
+def gen_fault_scenario(rng):
+    n = rng.randint(2, 4)
+    reqs = []
+    maint = rng.random() < 0.3
+    for i in range(n):
+        path = "/" + "abcd"[i]
+        resp = rng.choice(["cl", "cl", "cl", "chunked", "eof"])
+        chunks = [bytes([97 + rng.randrange(26)]) * rng.choice([1, 5, 12, 40]) for _ in range(rng.randint(2, 4))]
+        fault = None
+        slow = None
+        if not maint and rng.random() < 0.35:
+            at = rng.choice(["before-start", "after-start"] + list(range(len(chunks) + 1)))
+            fault = [at, rng.choice(sorted(FAULT_EXC)), rng.choice(["iter", "iter", "write"])]
+        if maint and rng.random() < 0.5:
+            slow = [rng.randint(1, 3), rng.choice([2.0, 60.0, 130.0])]
+            resp = rng.choice(["cl", "chunked"])
+        reqs.append(FReq(path, resp=resp if not maint or resp != "eof" else "cl", chunks=chunks, fault=fault, slow=slow,
+                         close=(not maint and rng.random() < 0.06)))
+    plan = [rng.choice([0, 5, 30, 1 << 20]) for _ in range(rng.randint(0, 4))] if rng.random() < 0.4 else []
+    return FaultScenario(reqs, send_plan=plan, lookahead=rng.choice([0, 1, 5]), n_workers=rng.choice([1, 2]),
+                         send_bytes=rng.choice([1, 1, 1, 60]), sndbuf=rng.choice([64, 1 << 16]),
+                         log_socket_errors=rng.random() < 0.5, expose_tracebacks=rng.random() < 0.4, maint=maint,
+                         channel_timeout=rng.choice([1, 100, 120]), granularity=rng.choice(["locks", "locks", "locks", "attrs"]))
